@@ -838,6 +838,7 @@ pub fn e2_jobs(prop: &str, tier: Tier) -> Vec<E2Job> {
             {
                 // an ordinary system panics: thread-local systems of that dispatch must not start
                 let mut scs = Vec::new();
+                let mut scs_async = Vec::new();
                 for p in tl(2).into_iter().chain(tl(3).into_iter().filter(|p| p.len() == 3).take(200)) {
                     let info = PlanInfo::of(&p);
                     let has_tl = info.nodes.iter().any(|n| n.kind == crate::spec::Kind::Tl && n.parent.is_none());
@@ -850,11 +851,21 @@ pub fn e2_jobs(prop: &str, tier: Tier) -> Vec<E2Job> {
                                 let mut s = Scenario::plain(p.clone(), Mode::Dispatch, 2);
                                 s.panics = vec![(n.id, at_fetch)];
                                 scs.push(s);
+                                // the same through the async front end: the wait that follows must not run them either
+                                if p.len() <= 2 {
+                                    let mut s = Scenario::plain(p.clone(), Mode::Async, 1);
+                                    s.panics = vec![(n.id, at_fetch)];
+                                    scs_async.push(s);
+                                }
                             }
                         }
                     }
                 }
                 jobs.push(E2Job { label: "thread-local plans with a panicking ordinary system".into(), scenarios: scs, bounds: b(1), delay: false });
+                // (the controlled runtime's channel does not wake the receiver when an unwinding task drops the sender:
+                // where the real wait() unwinds with "Sender dropped" the model blocks the caller - both mean that
+                // completion is never reported, and that no thread-local system starts)
+                jobs.push(E2Job { label: "thread-local plans with a panicking ordinary system, async dispatch + wait (blocked caller expected)".into(), scenarios: scs_async, bounds: b(1), delay: false });
                 // a thread-local system panics (caught): the next dispatch still runs every thread-local system, in order
                 let mut scs = Vec::new();
                 for p in tl(2).into_iter().chain(tl(3).into_iter().filter(|p| p.len() == 3).take(200)) {
@@ -969,7 +980,7 @@ pub fn run_e2(prop: &str, tier: Tier, budget: Duration, frag: &mut Frag) {
         let remaining = budget.saturating_sub(start.elapsed());
         let share = remaining / (njobs - k) as u32;
         let t0 = Instant::now();
-        let opts = ExploreOpts { bounds: job.bounds.clone(), all_points: false, deadline: t0 + share, max_execs: u64::MAX, keep_traces: 4, deadlock_prop: None, delay_mode: job.delay };
+        let opts = ExploreOpts { bounds: job.bounds.clone(), all_points: false, deadline: t0 + share, max_execs: u64::MAX, keep_traces: 4, deadlock_prop: if job.label.contains("(blocked caller expected)") { Some("EXPECTED-BLOCKED-CALLER") } else { None }, delay_mode: job.delay };
         let r = run_scenarios(&job.scenarios, mon, &opts);
         let wall = t0.elapsed().as_secs_f64();
         frag.parts.push(json!({
